@@ -212,6 +212,10 @@ class Integer(int, AnyAtomicType):
         elif isinstance(value, str):
             if cls.pattern.match(value) is None:
                 raise cls._invalid_value(value)
+            elif cls._lower_bound is not None and int(value) < cls._lower_bound:
+                raise cls._invalid_value(value)
+            elif cls._higher_bound is not None and int(value) >= cls._higher_bound:
+                raise cls._invalid_value(value)
         else:
             raise cls._invalid_type(value)
 
